@@ -12,12 +12,81 @@ Proof.
   generalize (Qceiling bv) (Qfloor bv). intros c f. lia.
 Qed.
 
+(* ================================================================== facts about the regenerated tables *)
+Lemma row_ok_sound z g ve cov s : row_ok (z, g, ve, cov, s) = true ->
+  (s = true <-> exists gz, g = Some gz /\ (13 <= gz <= 16)%Z) /\
+  (s = true -> exists gz rq, g = Some gz /\ ve = Some (gz - 10)%Z /\ cov = Some rq /\ (0 < rq)%Q).
+Proof.
+  unfold row_ok. intros H. apply andb_true_iff in H. destruct H as [H1 H2]. apply eqb_prop in H1.
+  split.
+  - rewrite H1. destruct g as [gz|].
+    + rewrite andb_true_iff, !Z.leb_le. split; [intros; exists gz; auto | intros [g' [E R]]; inversion E; subst; exact R].
+    + split; [discriminate | intros [g' [E _]]; discriminate].
+  - intros Hs. rewrite Hs in H2. destruct g as [gz|]; [|discriminate]. destruct ve as [v|]; [|discriminate].
+    destruct cov as [rq|]; [|discriminate]. apply andb_true_iff in H2. destruct H2 as [E R].
+    apply Z.eqb_eq in E. subst v. exists gz, rq. repeat split; auto.
+    apply negb_true_iff in R. apply Qnot_le_lt. intro C. apply Qle_bool_iff in C. congruence.
+Qed.
+
+Lemma order_nonneg (b : hbond) : orders_ok = true -> (0 <= hb_fo b)%Q -> (0 <= order_of b)%Q.
+Proof.
+  intros Hok Hf. unfold order_of.
+  destruct (find (fun r => N.eqb (fst r) (hb_bt b)) bond_orders) as [[bt [q|]]|] eqn:E.
+  - apply find_some in E. destruct E as [E _]. unfold orders_ok in Hok. rewrite forallb_forall in Hok.
+    specialize (Hok _ E). cbn in Hok. apply Qle_bool_iff. exact Hok.
+  - exact Hf.
+  - discriminate.
+Qed.
+
+(* ================================================================== the count of a selected atom *)
+Lemma el_row_in z r : el_row z = Some r -> In r elements /\ fst (fst (fst (fst r))) = z.
+Proof.
+  unfold el_row. intros H. apply find_some in H. destruct H as [H1 H2]. apply N.eqb_eq in H2. auto.
+Qed.
+
+(* an atom of a default-selected element is a main-group atom of groups 13-16 and receives the number of
+   hydrogens its hint states or, without a hint, the number the property's formula gives *)
+Theorem count_is_spec bonds i a : elements_ok = true -> el_sel (ha_el a) = true ->
+  exists gz, el_group (ha_el a) = Some gz /\ (13 <= gz <= 16)%Z /\
+    count_of bonds i a =
+      Some (match ha_hint a with
+            | Some h => h
+            | None => Z.max 0 (4 - Z.abs (4 - ((gz - 10) - ha_fc a - Z.abs (ha_spin a))) - Qceiling (bonded_valence bonds i))
+            end).
+Proof.
+  intros Hok Hs. unfold el_sel, el_group, count_of, el_ve in *.
+  destruct (el_row (ha_el a)) as [[[[[z g] ve] cov] s]|] eqn:E; [|discriminate].
+  destruct (el_row_in _ _ E) as [Hin _]. unfold elements_ok in Hok. rewrite forallb_forall in Hok.
+  destruct (row_ok_sound z g ve cov s (Hok _ Hin)) as [S1 S2]. subst s.
+  destruct (S2 eq_refl) as [gz [rq [-> [-> [_ _]]]]]. destruct (proj1 S1 eq_refl) as [g' [E' R]]. injection E' as <-.
+  exists gz. split; [reflexivity|]. split; [exact R|].
+  destruct (ha_hint a); [reflexivity|]. rewrite hs_expr_is_spec. reflexivity.
+Qed.
+
+(* ... and conversely nothing outside groups 13-16 is selected *)
+Theorem selected_iff_main_group z : elements_ok = true ->
+  (el_sel z = true <-> exists gz, el_group z = Some gz /\ (13 <= gz <= 16)%Z /\ el_row z <> None).
+Proof.
+  intros Hok. unfold el_sel, el_group. destruct (el_row z) as [[[[[z' g] ve] cov] s]|] eqn:E.
+  - destruct (el_row_in _ _ E) as [Hin _]. unfold elements_ok in Hok. rewrite forallb_forall in Hok.
+    destruct (row_ok_sound z' g ve cov s (Hok _ Hin)) as [S1 _]. rewrite S1. split.
+    + intros [gz [Eg R]]. exists gz. split; [exact Eg|]. split; [exact R|]. discriminate.
+    + intros [gz [Eg [R _]]]. exists gz. auto.
+  - split; [discriminate | intros [gz [Eg _]]; discriminate].
+Qed.
+
 (* ================================================================== structure: what one call changes *)
 Local Open Scope nat_scope.
 (* hydrogens actually added for a computed count k: k of them for 1..4, none otherwise *)
 Definition n_added (k : Z) : nat := if ((0 <? k) && (k <=? 4))%Z then Z.to_nat k else 0%nat.
 Definition added_to (t : nat) (nbs : list hbond) : nat := length (filter (fun b => Nat.eqb (hb_a1 b) t) nbs).
 
+Lemma n_added_exact k : (0 <= k <= 4)%Z -> Z.of_nat (n_added k) = k.
+Proof.
+  intros H. unfold n_added. destruct ((0 <? k) && (k <=? 4))%Z eqn:B.
+  - apply andb_true_iff in B. destruct B as [B _]. apply Z.ltb_lt in B. apply Z2Nat.id. lia.
+  - apply andb_false_iff in B. destruct B as [B|B]; [apply Z.ltb_ge in B | apply Z.leb_gt in B]; cbn [Z.of_nat]; lia.
+Qed.
 Lemma set_nth_length {A} (x : A) : forall l i, length (set_nth i x l) = length l.
 Proof. induction l as [|y l IH]; intros [|i]; simpl; auto. Qed.
 Lemma set_nth_same {A} (x : A) : forall l i, i < length l -> nth_error (set_nth i x l) i = Some x.
@@ -213,6 +282,36 @@ Proof.
 Qed.
 
 End Structure.
+
+(* ================================================================== the whole call, restated from the initial molecule *)
+Section Main.
+Context {F : Type} (o : Fops F).
+
+Theorem hadd_main (m m' : hmol F) ts ws :
+  (forall t, In t ts -> t < length (hm_atoms m)) -> NoDup ts ->
+  hadd o m ts ws = Some m' ->
+  exists A' nbs ps,
+    (* atoms: the old ones (only the hints of the targets are consumed), then one plain hydrogen per new bond *)
+    hm_atoms m' = A' ++ repeat h_atom (length nbs) /\
+    length A' = length (hm_atoms m) /\ map clear_hint A' = map clear_hint (hm_atoms m) /\
+    (forall j, ~ In j ts -> nth_error A' j = nth_error (hm_atoms m) j) /\
+    (forall j, In j ts -> nth_error A' j = option_map clear_hint (nth_error (hm_atoms m) j)) /\
+    (* bonds: the old ones, then bond number j joins a target to new hydrogen number j *)
+    hm_bonds m' = hm_bonds m ++ nbs /\
+    map hb_a2 nbs = seq (length (hm_atoms m)) (length nbs) /\
+    Forall (fun b => In (hb_a1 b) ts /\ b = new_bond (hb_a1 b) (hb_a2 b)) nbs /\
+    (* coordinates: the old rows, then one row per new hydrogen *)
+    hm_xyz m' = hm_xyz m ++ ps /\ length ps = length nbs /\
+    (* every target receives exactly the count computed on the molecule as it was before the call *)
+    (forall t a, In t ts -> nth_error (hm_atoms m) t = Some a ->
+       exists k, count_of (hm_bonds m) t a = Some k /\ added_to t nbs = n_added k).
+Proof.
+  intros Hlt Hnd H.
+  destruct (hadd_inv o ts ws m m' (hm_atoms m) 0) as [A' [nbs [ps P]]]; auto.
+  { cbn [repeat]. rewrite app_nil_r. reflexivity. }
+  exists A', nbs, ps. cbn [Nat.add] in P. rewrite Nat.add_0_r in P. exact P.
+Qed.
+End Main.
 
 (* ================================================================== a second call adds nothing *)
 Lemma Qfloor_shift (x : Q) (k : Z) : Qfloor (x + inject_Z k) = (Qfloor x + k)%Z.
@@ -693,6 +792,98 @@ Lemma two_h_distance_tolerance (d2 L : R) : 0 < L -> d2 = L * L * (10001056 / 10
   L * L < d2 /\ d2 < (L * (1 + 6 / 100000)) * (L * (1 + 6 / 100000)).
 Proof. intros HL ->. split; nra. Qed.
 
+(* ================================================================== three / four hydrogens on the tabulated tetrahedron *)
+Lemma tetF_R : tetF ROps = map vQ2R tetrahedron.
+Proof. reflexivity. Qed.
+
+Theorem place_tet_table (a : vecR) (nb : list vecR) (L : R) (hs : Z) (w : wit R) :
+  tet_ok tetrahedron = true ->
+  let v := hvec_raw ROps a nb (w_nrm w) in
+  (hs = 3 \/ hs = 4)%Z -> 0 <= L ->
+  0 < w_n w -> w_n w * w_n w = norm2 ROps v ->
+  unit (w_ov w) -> dot ROps (w_ov w) (vdiv ROps v (w_n w)) = 0 ->
+  length (place ROps (tetF ROps) a nb L hs w) = Z.to_nat hs /\
+  Forall (fun h => L * L * (1 - 1 / 100000000) <= dist2 ROps h a <= L * L * (1 + 1 / 100000000))
+         (place ROps (tetF ROps) a nb L hs w) /\
+  (hs = 3%Z -> Forall (fun h => dot ROps (vsub ROps h a) v <= - (33 / 100) * L * w_n w)
+                      (place ROps (tetF ROps) a nb L hs w)).
+Proof.
+  intros Hok v Hhs HL Hn E Uo Hov. rewrite tetF_R.
+  destruct tetrahedron as [|t0 [|t1 [|t2 [|t3 [|t4 r]]]]] eqn:Et; try discriminate.
+  destruct (tet_ok_R t0 t1 t2 t3 Hok) as [N0 Nr]. cbn [map].
+  destruct (place_tet (vQ2R t0) (vQ2R t1) (vQ2R t2) (vQ2R t3) a nb L hs w Hhs Hn E N0 Uo Hov) as [M [PM [M0 [Pl G]]]].
+  fold v in G. rewrite Pl.
+  assert (B : forall t, In t [t1; t2; t3] ->
+            let h := vadd ROps (vscale ROps L (vm ROps (vQ2R t) M)) a in
+            L * L * (1 - 1 / 100000000) <= dist2 ROps h a <= L * L * (1 + 1 / 100000000) /\
+            dot ROps (vsub ROps h a) v <= - (33 / 100) * L * w_n w).
+  { intros t Ht h. destruct (Nr t Ht) as [[R1 R2] [R3 R4]].
+    destruct (G (vQ2R t)) as [D A].
+    { cbn [In] in Ht |- *. destruct Ht as [<-|[<-|[<-|[]]]]; auto. }
+    fold h in D, A. rewrite D, A.
+    assert (HLL : 0 <= L * L) by nra. assert (HLn : 0 <= L * w_n w) by nra.
+    unfold norm2 in R1, R2. set (q := dot ROps (vQ2R t) (vQ2R t)) in *. set (d := dot ROps (vQ2R t) (vQ2R t0)) in *.
+    unfold norm2. fold q. split; [split; nra | nra]. }
+  assert (B0 : let h := vadd ROps (vscale ROps L (vm ROps (vQ2R t0) M)) a in
+               L * L * (1 - 1 / 100000000) <= dist2 ROps h a <= L * L * (1 + 1 / 100000000)).
+  { intros h. destruct (G (vQ2R t0)) as [D _]; [left; reflexivity|]. fold h in D. rewrite D, N0. assert (HLL : 0 <= L * L) by nra. split; nra. }
+  destruct (B t1 (or_introl eq_refl)) as [B1a B1b].
+  destruct (B t2 (or_intror (or_introl eq_refl))) as [B2a B2b].
+  destruct (B t3 (or_intror (or_intror (or_introl eq_refl)))) as [B3a B3b].
+  cbv zeta in B0.
+  destruct Hhs as [-> | ->]; cbn [Z.sub Z.to_nat Z.opp Z.add Z.pos_sub Pos.to_nat Pos.iter_op Nat.add skipn map length].
+  - split; [reflexivity|]. split.
+    + constructor; [exact B1a|]. constructor; [exact B2a|]. constructor; [exact B3a|]. constructor.
+    + intros _. constructor; [exact B1b|]. constructor; [exact B2b|]. constructor; [exact B3b|]. constructor.
+  - split; [reflexivity|]. split.
+    + constructor; [exact B0|]. constructor; [exact B1a|]. constructor; [exact B2a|]. constructor; [exact B3a|]. constructor.
+    + intros C. discriminate.
+Qed.
+
+(* ================================================================== "pointing away from the centroid of the existing neighbours" *)
+(* averaging branch (1, 2 or >= 4 neighbours): 1, 2 or 3 hydrogens all have a negative dot product with the
+   direction from the atom to the centroid of its neighbours *)
+Theorem placement_away_avg (a : vecR) (nb : list vecR) (L : R) (k : Z) (w : wit R) :
+  tet_ok tetrahedron = true -> avg_branch nb -> 0 < L -> (k = 1 \/ k = 2 \/ k = 3)%Z ->
+  let c := vsub ROps (centroid ROps nb) a in
+  0 < w_n w -> w_n w * w_n w = norm2 ROps c ->
+  (k = 2%Z -> 0 < w_nz w /\ w_nz w * w_nz w = norm2 ROps (zdir ROps a nb (vdiv ROps c (w_n w)))) ->
+  (k = 3%Z -> unit (w_ov w) /\ dot ROps (w_ov w) (vdiv ROps c (w_n w)) = 0) ->
+  Forall (fun h => dot ROps (vsub ROps h a) c < 0) (place ROps (tetF ROps) a nb L k w).
+Proof.
+  intros Hok Hb HL Hk c Hn E H2 H3.
+  assert (Hv : hvec_raw ROps a nb (w_nrm w) = c) by (apply hvec_avg; exact Hb).
+  assert (HLn : 0 < L * w_n w) by nra.
+  destruct Hk as [-> | [-> | ->]].
+  - destruct (place_one (tetF ROps) a nb L w) as [h [P [_ A]]]; [exact Hn | rewrite Hv; exact E |].
+    rewrite P. constructor; [|constructor]. rewrite Hv in A. rewrite (A c eq_refl). nra.
+  - destruct (H2 eq_refl) as [Hz Ez].
+    destruct (place_two (tetF ROps) a nb L w) as [h1 [h2 [P G]]];
+      [exact Hn | rewrite Hv; exact E | exact Hz | rewrite Hv; exact Ez |].
+    rewrite P. rewrite Hv in G.
+    constructor; [|constructor; [|constructor]].
+    + destruct (G h1 (or_introl eq_refl)) as [_ A]. rewrite A. nra.
+    + destruct (G h2 (or_intror eq_refl)) as [_ A]. rewrite A. nra.
+  - destruct (H3 eq_refl) as [Uo Hov].
+    destruct (place_tet_table a nb L 3 w Hok) as [_ [_ A]]; auto; try lra; try (rewrite Hv; assumption).
+    specialize (A eq_refl). rewrite Hv in A. eapply Forall_impl; [|exact A]. intros h Hh. cbv beta in Hh. nra.
+Qed.
+
+(* three neighbours, the atom off their plane (|align| > 0.05): one hydrogen, opposite to the centroid *)
+Theorem placement_away_three (a p1 p2 p3 : vecR) (L : R) (w : wit R) :
+  0 < L -> unit (w_nrm w) ->
+  let c := vsub ROps (centroid ROps [p1; p2; p3]) a in
+  abs_le ROps (dot ROps (w_nrm w) c) (c_align ROps) = false ->
+  let v := hvec_raw ROps a [p1; p2; p3] (w_nrm w) in
+  0 < w_n w -> w_n w * w_n w = norm2 ROps v ->
+  forall tet, exists h, place ROps tet a [p1; p2; p3] L 1 w = [h] /\ dist2 ROps h a = L * L /\ dot ROps (vsub ROps h a) c < 0.
+Proof.
+  intros HL Un c Hal v Hn E tet.
+  destruct (hvec_three a (w_nrm w) p1 p2 p3 Un Hal) as [_ T]. fold c in T. fold v in T.
+  destruct (place_one tet a [p1; p2; p3] L w Hn E) as [h [P [D A]]].
+  exists h. split; [exact P|]. split; [exact D|]. fold v in A. rewrite (A c T). nra.
+Qed.
+
 (* ================================================================== "only adds" on C05's model of the same routine *)
 (* Model/MolEdit.v (C05) models add_implicit_hydrogens structurally, with the number and the coordinate rows of
    the hydrogens as arguments of the operation AddHs.  Its theorems (Inv preserved, every old atom keeps its row
@@ -732,7 +923,6 @@ Proof.
     intros a [E1 E2]. split; [exact E1 | eapply Pos.le_trans; eauto].
   - apply Forall_app. split; (eapply Forall_impl; [|eassumption]); intros b [E1 E2]; (split; [exact E1|]);
       rewrite map_app; apply in_or_app; [left|right]; exact E2.
-  - rewrite A9, B9. reflexivity.
   - apply Nat.add_le_mono; assumption.
   - apply Forall_app. split; assumption.
 Qed.
@@ -750,6 +940,7 @@ Proof.
   unfold added. cbn [MolEdit.atoms MolEdit.bonds coords charges has_q next_a next_b].
   exists [mkAtom (next_a s) el_H None OThis], [mkBond (next_b s) x (next_a s) OThis], [c],
          (if has_q s then [CNum 0] else []).
+  cbn [MolEdit.atoms MolEdit.bonds coords charges has_q next_a next_b].
   repeat split; auto.
   - destruct (has_q s); [reflexivity | rewrite app_nil_r; reflexivity].
   - lia.
